@@ -16,13 +16,14 @@ def runCache (fs : Fs) (table : List TEntry) (scan : List PathArg) : Cache :=
 theorem C02_cache_monotone (c : Cache) (len : Nat) (p : Path) (i : Nat) (len' : Nat) (q : Path) (j : Nat)
     (h : ∃ m, cacheGet c len = some m ∧ ∃ k, (p, k) ∈ m) :
     ∃ m, cacheGet (cacheInsert c len' q j) len = some m ∧ ∃ k, (p, k) ∈ m := by
-  sorry
+  have _ := i
+  exact TB.RC.reg_insert h len' q j
 
 /-- scanning further directories never unregisters a path -/
 theorem C02_scan_monotone (fs : Fs) (c : Cache) (dir : Path) (lengths : List Nat) (len : Nat) (p : Path)
     (h : ∃ m, cacheGet c len = some m ∧ ∃ k, (p, k) ∈ m) :
     ∃ m, cacheGet (addByDirectory fs c dir lengths) len = some m ∧ ∃ k, (p, k) ∈ m := by
-  sorry
+  exact TB.RunG.reg_addByDirectory h fs dir lengths
 
 /-- every regular file below one of the scan directories whose length is the declared length of some non-padding
     torrent file is registered in the run's cache under that length -/
@@ -32,14 +33,21 @@ theorem C02_run_scan_registered (fs : Fs) (table : List TEntry) (scan : List Pat
     (hmem : (p, i) ∈ fs.files) (hunder : d.path.length < p.length ∧ p.take d.path.length = d.path)
     (hlen : (fs.content i).length = e.fileLength) :
     ∃ m, cacheGet (runCache fs table scan) e.fileLength = some m ∧ ∃ k, (p, k) ∈ m := by
-  sorry
+  have hc := TB.RunG.uniqueLengths_contains table e he hpad
+  rw [← hlen] at hc ⊢
+  unfold runCache
+  simp only [TB.RunG.addExportPaths_fs]
+  exact TB.RunG.scan_registers fs (uniqueLengths table) scan _ d p i hd hmem hunder hc
 
 /-- an export image that exists as a regular file of exactly the declared length is registered under that length -/
 theorem C02_run_export_registered (fs : Fs) (table : List TEntry) (scan : List PathArg) (e : TEntry) (i : Nat)
     (he : e ∈ table) (hpad : e.isPad = false)
     (hlook : fs.look e.fullTarget = .file i) (hlen : (fs.content i).length = e.fileLength) :
     ∃ m, cacheGet (runCache fs table scan) e.fileLength = some m ∧ ∃ k, (e.fullTarget, k) ∈ m := by
-  sorry
+  unfold runCache
+  simp only
+  exact TB.RunG.reg_scan
+    (TB.RunG.addExportPaths_registers ⟨fs, [], []⟩ rfl [] table e i he hpad hlook hlen) _ _ scan
 
 /-- whatever admissible order is observed (or the canonical one), the candidate list of an entry names every
     inode registered under its length: `populateSearches` loses no file -/
@@ -47,6 +55,6 @@ theorem C02_populate_keeps (c : Cache) (obs : List (Nat × List Path)) (table : 
     (m : List (Path × Nat)) (he : e ∈ table) (hpad : e.isPad = false) (hm : cacheGet c e.fileLength = some m) :
     ∃ e' ∈ (populateSearches c obs table).1, e'.id = e.id ∧ e'.fullTarget = e.fullTarget ∧
       ∃ paths, e'.searches = some paths ∧ ∀ x ∈ m, ∃ q ∈ paths, ∃ y ∈ m, y.1 = q ∧ y.2 = x.2 := by
-  sorry
+  exact TB.RunG.populate_keeps c obs table e m he hpad hm
 
 end TB
